@@ -51,9 +51,6 @@ structure Env where
   prematch : Bool                      -- some changing handler's filters accept the object at all
   changeReq : Bool                     -- `registry._changing.requires_finalizer(cause)`: a mandatory deletion handler prematches
   foreignFins : Bool                   -- somebody else's finalizer is on the object (it survives our release)
-  idleFns : Bool                       -- every cycle's patch carries transformation functions (`patch.fns`) that yield
-                                       -- no JSON-patch operation (e.g. an idempotent one that is already satisfied):
-                                       -- the patch is non-empty, but no request is sent for it
   constPatch : Bool                    -- every cycle's patch carries content that changes nothing on the server
                                        -- (e.g. the constant result of an `on.event` handler, stored again each time).
                                        -- NOT modelled: after a keepalive touch that wakes nobody, that patch goes out
@@ -132,11 +129,6 @@ def cp (env : Env) : Nat := if env.constPatch then 1 else 0
 /-- from the end of the sleep to the next event: (the no-op patch was sent before the sleep, if any) + touch + echo -/
 def latS (env : Env) : Tick := (if env.constPatch then env.rtt else 0) + env.lat
 
-/-- The patch of the cycle is non-empty but produces NO request (only functions without operations, and no
-    merge content besides): `patch_and_check` answers `None` for the version, which `application.apply`
-    takes for "the patch changed the object" — the third patch class of the code (finding C03-N1). -/
-def idle (env : Env) : Bool := env.idleFns && !env.constPatch
-
 /-- did the handling pass put anything into the patch that CHANGES the object (records or last-handled)? -/
 def changedOf (env : Env) (s : State E) : Bool :=
   (ids env).any (fun i => (pass env s).P' i != s.P i) ||
@@ -156,16 +148,13 @@ def nextState (env : Env) (s : State E) (now' : Tick) (pend : Bool) (w : Nat) : 
 
 /-- A turn in which `process_changing_cause` is reached and the object is not released: the pass, then
     `application.apply` (as of repo fix 7224f57): a patch that CHANGED the object → its echo is the next
-    event, a pending sleep is skipped; a non-empty patch for which NO request is sent (`idle`) is taken for
-    a change as well — the sleep is skipped although no event will follow (C03-N1); otherwise (no patch, or
-    a patch that changed nothing) delays → sleep (capped) → the touch-dummy PATCH → its echo; else nothing
-    is pending. -/
+    event, a pending sleep is skipped; otherwise (no patch, a patch that changed nothing, or — as of repo
+    fix b7bf39c, formerly finding C03-N1 — a non-empty patch of transformation functions that yield no
+    operation, for which no request is sent at all: not told apart from "no patch" here) delays → sleep
+    (capped) → the touch-dummy PATCH → its echo; else nothing is pending. -/
 def handleTurn (env : Env) (s : State E) : State E :=
   if changedOf env s then
     nextState env s (s.now + env.lat) true (s.writes + 1)
-  else if idle env then
-    -- nothing is sent, yet the patch counts as a change: no sleep, no touch — and no event will follow
-    nextState env s s.now false (s.writes + cp env)
   else
     match minDelay (pass env s).delays with
     | some d =>
@@ -271,6 +260,19 @@ structure WF (env : Env) : Prop where
   lat : 0 ≤ env.lat
   rtt : 0 ≤ env.rtt
   cap : 0 < env.cap
+
+/-- every handler the pass of THIS turn runs gets a final outcome from its script (no retry is asked for) -/
+def PassFinal (env : Env) (s : State E) : Prop :=
+  ∀ p ∈ (pass env s).invoked, (env.exec p.1 p.2).final = true
+
+/-- this turn reaches `process_changing_cause` and `apply` (no finalizer adjustment, not blind, not the release) -/
+def handlesNow (env : Env) (s : State E) : Bool :=
+  s.pending && !s.gone && !(decisionOf env s).add && !(decisionOf env s).removeUnneeded &&
+    (decisionOf env s).handlersRun && !(decisionOf env s).release
+
+/-- This turn is a handling turn whose pass runs a handler with a non-final scripted outcome: a retry is asked
+    for — ONE failure of the scripts is consumed. -/
+def FailsNow (env : Env) (s : State E) : Prop := handlesNow env s = true ∧ ¬ PassFinal env s
 
 /-- "handlers stop failing": from now on every invocation yields a final outcome (success, permanent
     failure; exhausted retries/timeouts are final by themselves) -/
